@@ -287,6 +287,10 @@ def _multi_file(rng, kind):
         if rng.random() < 0.3:
             ns["tail_bound_moments"] = 3
             argv += ["--tail_bound_moments", "3"]
+        if _random.Random(f"atn|{files}|{goals}").random() < 0.25:
+            # values at a fixed iteration are printed as well
+            ns["at_n"] = 5
+            argv += ["--at_n", "5"]
     fl = [{"path": p} for p in files]
     if kind == "cli":
         return {"kind": "cli", "pid": "cli:" + "+".join(files), "files": fl, "argv": argv, "options": {}}
@@ -720,6 +724,25 @@ def judge(history, wres, refget):
         verdict, detail = "ok", None
         if w["status"] == "skipped":
             continue
+        if w.get("knob_canary"):
+            # the step changed an interpreter-global setting (recursion limit, integer-text limit, working directory): analyses whose
+            # outcome depends on such a setting ran right after it and must behave as they do in a fresh interpreter
+            from .world import KNOB_CANARIES
+            for ci, (spec, steps) in enumerate(zip(KNOB_CANARIES, w["knob_canary"])):
+                r = refget(dict(spec))
+                stats["units"] += 1
+                if r.get("status") != "done":
+                    continue
+                for name, wr in steps.items():
+                    rr = r["steps"].get(name)
+                    if rr is None or wr.get("status") in ("timeout", "skipped") or rr.get("status") in ("timeout", "skipped"):
+                        continue
+                    v3, d3 = _cmp_status(wr, rr)
+                    if v3 == "diff":
+                        problems.append(dict(d3, op=oi, sid=op["sid"], step=f"{step}+knob-canary:{ci}:{name}", session_kind=sess["kind"], pid=sess.get("pid"),
+                                             knobs_changed=w.get("knobs_changed"),
+                                             note="the step changed an interpreter-global setting; an analysis performed right after it behaves differently than in a fresh interpreter"))
+                        break
         if sess["kind"] == "lib":
             if step in ("parse", "normalize"):
                 r = refget(units["head"])
@@ -880,6 +903,7 @@ def _probes(case, wres):
     p["abandoned_or_repeated"] = 1
     # cause hint: a step after which the global options no longer equal the owning session's vector (CLI sessions own argv's options)
     p["canaries_run"] = sum(1 for r in wres["results"] if r.get("canary"))
+    p["knob_changes_seen"] = sum(1 for r in wres["results"] if r.get("knobs_changed"))
     p["settings_changed_during_step"] = sum(1 for o, r in zip(case["ops"], wres["results"])
                                             if r.get("settings_as_owned") is False and r.get("status") in ("ok", "refused")
                                             and case["sessions"][o["sid"]]["kind"] != "cli")
